@@ -298,6 +298,32 @@ TwoOK(e) ==
          /\ \A k \in 1..Len(e.r) : TextParses(e.r[k].t)
          /\ Cardinality({e.r[k].t : k \in 1..Len(e.r)}) = Len(e.r)      \* distinct cubes print distinct text
 
+-----------------------------------------------------------------------------
+(* C18: the MIP optimizers *)
+OptSol(e) == [j \in 1..Len(e.r) |-> [cubes |-> {DC(e.r[j].cubes[k]) : k \in 1..Len(e.r[j].cubes)},
+                                      ecubes |-> {DE(e.r[j].ecubes[k]) : k \in 1..Len(e.r[j].ecubes)}]]
+OptVerdict(e) ==
+  IF MODE # "C18" THEN Setup(slots, it)
+  ELSE IF e.out # "ok" THEN Bad("optimizer did not return")
+  ELSE
+  LET n == e.n
+      fs == [j \in 1..Len(e.fs) |-> ToSet(e.fs[j])]
+      sol == OptSol(e)
+      isEsop == e.kind = "esop"
+      nodup == \A j \in 1..Len(e.r) : Cardinality(sol[j].cubes) = Len(e.r[j].cubes)
+                                        /\ Cardinality(sol[j].ecubes) = Len(e.r[j].ecubes)
+      \* the library's own evaluation of what it returned
+      own == \A j \in 1..Len(e.r) : WFTab(e.r[j].lut) /\ Meaning(e.r[j].lut) = fs[j] /\ ToSet(e.r[j].vals) = fs[j]
+      sound == IF isEsop THEN SoundXor(n, fs, sol) ELSE SoundOr(n, fs, sol)
+  IN IF Len(e.r) # Len(e.fs) THEN Bad("wrong number of forms")
+     ELSE IF ~(nodup /\ own /\ sound) THEN Bad("form does not denote its function")
+     ELSE LET cost == SolutionCost(sol, e.andc, e.xorc, e.orc, isEsop)
+              opt == CASE e.kind = "sop" -> OptSop(n, fs, e.andc, e.orc)
+                       [] e.kind = "sopes" -> OptSopes(n, fs, e.andc, e.xorc, e.orc)
+                       [] e.kind = "esop" -> OptEsop(n, fs, e.andc, e.xorc)
+          IN IF cost = opt THEN Good(slots, it)
+             ELSE IF PrintT(<<"INFO", l, "cost", cost, "optimum", opt>>) THEN Bad("not minimum cost") ELSE Bad("?")
+
 TwoVerdict(e) ==
   IF ~TwoKindStrict(e.k, e.op) THEN Setup(slots, it)
   ELSE IF e.out # "ok" THEN Bad("outcome " \o e.out \o " not allowed")
@@ -347,6 +373,7 @@ Verdict(e) ==
   ELSE IF e.op = "rand_begin" THEN Setup(slots, it)
   ELSE IF e.op = "rand_end" THEN RandEndVerdict(e)
   ELSE IF e.op = "random" THEN RandomVerdict(e)
+  ELSE IF e.op = "optimize" THEN OptVerdict(e)
   ELSE IF e.ty = "two" THEN TwoVerdict(e)
   ELSE IF e.op = "canon" THEN CanonVerdict(e)
   ELSE IF e.op = "conv_int" THEN ConvIntVerdict(e)
